@@ -10,6 +10,7 @@ The same scenario code runs in two modes through `Inputs`: symbolic (z3 variable
 (values taken from a solver model) — the latter is the replay on the real Python code and the concrete
 MySQL emulator.
 """
+import os
 import time
 
 import z3
@@ -635,6 +636,10 @@ def run_sequences(prefix_sc, seqs, step_asserts, workers=8, timeout_ms=120000):
     _SHARED = (prefix_sc, step_asserts, timeout_ms)
     ctx = mp.get_context('fork')
     seqs = list(seqs)
+    if os.environ.get('VERIF_SERIAL'):   # debugging aid: run the sequences in this process
+        for q in seqs:
+            yield _one_seq(q)
+        return
     # a worker that dies (crash inside z3, out of memory, ...) makes a multiprocessing pool wait forever: bound the wait
     limit = 3 * timeout_ms / 1000 + 900
     with ctx.Pool(workers) as pool:
